@@ -186,11 +186,11 @@ struct Hist {
     }
 
     //! checks that follow an acceptance step (single or package); `evs` = events of the submission, `pre` = state before
-    void AfterAcceptance(const std::vector<MpEvent>& evs, const PoolSnap& pre, const std::string& action)
+    void AfterAcceptance(const std::vector<MpEvent>& evs, const PoolSnap& pre, const std::string& action, const std::map<Txid, std::pair<CAmount, int64_t>>& hints = {})
     {
         std::vector<Txid> added;
         std::vector<Evicted> evicted;
-        std::map<Txid, std::pair<CAmount, int64_t>> added_info;
+        std::map<Txid, std::pair<CAmount, int64_t>> added_info = hints;
         for (const auto& e : evs) {
             if (e.kind == MpEvent::ADDED && !e.bypassed) {
                 added.push_back(e.tx->GetHash());
@@ -246,6 +246,7 @@ struct Hist {
                 }
             }
             if (after.mem_usage * 10 >= (size_t)mopts.max_size_bytes * 8) Obs("memory_near_limit");
+            vh::log().obs_max("mem_permille", (int64_t)(after.mem_usage * 1000 / (size_t)mopts.max_size_bytes));
         }
         if (!evicted.empty()) {
             Obs("evictions_judged");
@@ -316,6 +317,12 @@ struct Hist {
         const std::string action = std::string("tx:") + TxKindName(g.kind) + (g.tag.empty() ? "" : ":" + g.tag);
         Obs(std::string("kind_") + TxKindName(g.kind));
         const bool do_test = cls == Cls::TESTACCEPT || rng.chance(1, 2);
+        if (rng.chance(1, 25)) {
+            static const int64_t ds[] = {1000, -1000, 1, -1, 100000};
+            Prioritise(node, g.tx->GetHash(), ds[rng.below(5)]);
+            Obs("tx_preprioritised");
+            pre = SnapPool(node, false, /*with_minfee=*/true);
+        }
         std::optional<TxResult> t;
         if (do_test) {
             const uint256 h0 = pre.Hash();
@@ -361,7 +368,25 @@ struct Hist {
         }
         if (r.Valid() && mon.testaccept) PolicyImpliesConsensus(g.tx, pre, action);
         if (samples.size() < 6 && rng.chance(1, 20)) samples.push_back(vh::J().str("action", action).str("result", r.Str()).i("fee", g.fee).u("pool", pre.count).done());
-        AfterAcceptance(evs, pre, action);
+        std::map<Txid, std::pair<CAmount, int64_t>> hints;
+        if (g.fee >= 0) {
+            // (modified fee, own vsize) of the submitted transaction, in case it is trimmed within the call (no ADDED event then)
+            std::vector<CTxOut> spent;
+            if (ResolveSpent(*g.tx, pre, spent)) {
+                std::vector<RefCoin> rc(spent.size());
+                std::vector<const RefCoin*> rp;
+                for (size_t i = 0; i < spent.size(); ++i) {
+                    rc[i].value = spent[i].nValue;
+                    rc[i].spk = spent[i].scriptPubKey;
+                    rp.push_back(&rc[i]);
+                }
+                CAmount delta = 0;
+                auto d = pre.deltas.find(g.tx->GetHash());
+                if (d != pre.deltas.end()) delta = d->second;
+                hints[g.tx->GetHash()] = {g.fee + delta, OwnVsize(RefLedger::TxWeight(*g.tx), RefLedger::SigOpCost(*g.tx, rp))};
+            }
+        }
+        AfterAcceptance(evs, pre, action, hints);
         AfterStep(action);
     }
 
@@ -377,6 +402,13 @@ struct Hist {
         const std::string action = std::string("pkg:") + PkgKindName(gp.kind) + (gp.tag.empty() ? "" : ":" + gp.tag);
         const PkgShape shape = OwnPackageShape(gp.txs);
         const bool test = rng.chance(1, 12);
+        if (rng.chance(1, 6)) {
+            // fee delta registered for a package member before it is seen (prioritisation of a not yet known txid)
+            static const int64_t ds[] = {1000, -1000, 1, 100000};
+            Prioritise(node, gp.txs[rng.below(gp.txs.size())]->GetHash(), ds[rng.below(4)]);
+            Obs("pkg_preprioritised");
+            pre = SnapPool(node, false, /*with_minfee=*/true);
+        }
         const uint256 h0 = pre.Hash();
         const PkgResult r = SubmitPackage(node, gp.txs, test);
         std::vector<MpEvent> evs = Drain();
@@ -435,10 +467,15 @@ struct Hist {
                         Report1("pkg-result-mismatch", "a package member's reported result does not match whether it is in the mempool",
                                 vh::J().str("tx", tx->GetHash().ToString()).str("result", tr.Str()).b("in_pool_by_wtxid", in_pool_wtxid).b("in_pool_by_txid", in_pool_txid).str("pkg_state", r.reason).done(), action);
                     }
-                    if (tr.Valid() && mon.testaccept) PolicyImpliesConsensus(tx, pre, action, gp.txs);
                 }
                 if (r.state_valid) Obs("pkg_all_ok");
                 else Obs("pkg_failed_or_partial");
+            }
+        }
+        if (mon.testaccept && !test) {
+            for (const auto& tx : gp.txs) {
+                auto res = r.tx.find(tx->GetWitnessHash());
+                if (res != r.tx.end() && res->second.Valid()) PolicyImpliesConsensus(tx, pre, action, gp.txs);
             }
         }
         if (samples.size() < 6 && rng.chance(1, 15)) samples.push_back(vh::J().str("action", action).str("shape", shape.Str()).u("n", gp.txs.size()).str("result", r.Str().substr(0, 300)).done());
@@ -723,11 +760,11 @@ MpOpts RandomMpOpts(vh::Rng& rng, Cls cls)
     if (small) {
         static const unsigned cc[] = {3, 4, 5, 8, 12, 25, 64};
         o.cluster_count = cc[rng.below(7)];
-        static const int64_t cs[] = {2000, 4000, 10000, 25000, 101000};
-        o.cluster_size_vbytes = cs[rng.below(5)];
+        static const int64_t cs[] = {2000, 2000, 4000, 4000, 10000, 25000, 101000};
+        o.cluster_size_vbytes = cs[rng.below(7)];
         const int64_t floor_bytes = o.cluster_size_vbytes * 40;
-        o.max_size_bytes = std::max<int64_t>(floor_bytes, 150000 + (int64_t)rng.below(900000));
-        if (rng.chance(1, 4)) o.max_size_bytes = std::max<int64_t>(floor_bytes, 5000000);
+        o.max_size_bytes = std::max<int64_t>(floor_bytes, 60000 + (int64_t)rng.below(300000));
+        if (rng.chance(1, 5)) o.max_size_bytes = std::max<int64_t>(floor_bytes, 5000000);
     }
     static const int64_t ex[] = {2 * 3600, 6 * 3600, 24 * 3600, 72 * 3600, 336 * 3600};
     o.expiry_s = ex[rng.below(5)];
